@@ -510,7 +510,7 @@ static std::string run_case(const std::string &line)
             } else if (f == "binomial") {
                 R.o << binomial(*I(2), to_ul(t.at(3)))->__str__();
             } else if (f == "probab_prime_p") {
-                R.o << probab_prime_p(*I(2), 25);
+                R.o << (probab_prime_p(*I(2), 25) != 0 ? 1 : 0); // GMP: 2 = certainly prime, 1 = probably; Boost: 1
             } else if (f == "nextprime") {
                 R.o << nextprime(*I(2))->__str__();
             } else if (f == "i_nth_root") {
